@@ -288,6 +288,9 @@ func Main(component string, f Factory, gen InitGen) {
 				nh++
 			}
 		})
+		if ExtraReal != nil {
+			ExtraReal() // further real-goroutine runs of the component (other element types ...): the race detector is the judge
+		}
 		hw.Flush()
 		hf.Close()
 		core.WriteJSON(*out+"/real_stats.json", map[string]interface{}{"component": component, "histories": nh, "events": nev,
